@@ -39,6 +39,7 @@ var Prop = &engine.Prop{
 		{Name: "semap", Quick: 5000, Thorough: 750000, Fn: semapCase},
 		{Name: "conc-fresh", Quick: 600, Thorough: 40000, Fn: concFreshCase},
 		{Name: "lock-order", Quick: 400, Thorough: 16000, Fn: lockOrderCase},
+		{Name: "conc-overwrite", Quick: 60, Thorough: 2400, Fn: concOverwriteCase},
 	},
 	Floors: map[string]int64{
 		// routing
